@@ -6,6 +6,7 @@ import (
 	"strings"
 
 	"google.golang.org/protobuf/internal/filedesc"
+	"google.golang.org/protobuf/internal/strs"
 	"google.golang.org/protobuf/proto"
 	"google.golang.org/protobuf/reflect/protoreflect"
 	"google.golang.org/protobuf/types/descriptorpb"
@@ -291,6 +292,35 @@ func expect(files []*fdp) *expectation {
 		}
 	}
 	return x
+}
+
+// enforcement asks, for every string field and extension of the file, the one function all codecs
+// consult (internal/strs.EnforceUTF8) whether invalid UTF-8 is refused.
+func enforcement(fd protoreflect.FileDescriptor) map[string]bool {
+	out := map[string]bool{}
+	one := func(kind string, f protoreflect.FieldDescriptor) {
+		if f.Kind() == protoreflect.StringKind {
+			out[kind+" "+string(f.FullName())] = strs.EnforceUTF8(f)
+		}
+	}
+	var doMsgs func(ms protoreflect.MessageDescriptors)
+	doMsgs = func(ms protoreflect.MessageDescriptors) {
+		for i := 0; i < ms.Len(); i++ {
+			md := ms.Get(i)
+			for j := 0; j < md.Fields().Len(); j++ {
+				one("field", md.Fields().Get(j))
+			}
+			for j := 0; j < md.Extensions().Len(); j++ {
+				one("ext", md.Extensions().Get(j))
+			}
+			doMsgs(md.Messages())
+		}
+	}
+	doMsgs(fd.Messages())
+	for j := 0; j < fd.Extensions().Len(); j++ {
+		one("ext", fd.Extensions().Get(j))
+	}
+	return out
 }
 
 // observed reads the resolved features a descriptor built by either construction carries.
